@@ -35,11 +35,123 @@ def _mutable_literal(v):
     return isinstance(v, (ast.Dict, ast.List, ast.Set)) or (isinstance(v, ast.Call) and txt(v.func) in ("dict", "list", "set", "defaultdict", "Counter", "OrderedDict"))
 
 
+def _init_attrs():
+    try:
+        return json.load(open(os.path.join(VERIF, "known_functions.json"))).get("init_attrs", {})
+    except Exception:
+        return {}
+
+
+def _init_params():
+    try:
+        return json.load(open(os.path.join(VERIF, "known_functions.json"))).get("init_params", {})
+    except Exception:
+        return {}
+
+
+def run_init_and_accessors(ctx, mods):
+    """Cnn.I: attributes the constructor initialises on the pinned tree and that methods still read are still
+    initialised by the constructor.  Cnn.A: a property setter stores into the field its getter returns."""
+    from gcmstatic.attrs import AttrState
+    prog = ctx.prog
+    pinned = _init_attrs()
+    with ctx.obligation(f"{ctx.prop}.I", "objects are fully configured by their constructor: every attribute the constructor set on the pinned tree and that methods "
+                                        "still read is definitely assigned by it; property setters store into the field their getter returns") as o:
+        n_cls = n_attr = n_acc = 0
+        bad = False
+        for mi in mods:
+            for ci in mi.classes.values():
+                init = prog.method(ci, "__init__")
+                want = pinned.get(ci.name)
+                if want and init is not None:
+                    n_cls += 1
+                    try:
+                        st = AttrState(prog, ci)
+                        must = st.summary(init).must
+                        # attributes some method reads before writing
+                        read_somewhere = set()
+                        for c2 in prog.mro(ci):
+                            for m in c2.methods.values():
+                                if m.name == "__init__":
+                                    continue
+                                if prog.method(ci, m.name) is not m and "setter" not in m.qualname:
+                                    continue
+                                try:
+                                    read_somewhere |= set(st.summary(m).exposed)
+                                except Exception:
+                                    pass
+                        for a in want:
+                            if a in read_somewhere:
+                                n_attr += 1
+                                if a not in must and prog.class_attr(ci, a) is None:
+                                    bad = True
+                                    o.violated(init, init.node, f"`{ci.name}.__init__` no longer assigns `self.{a}` on every path, but methods of the class read it: "
+                                                                f"an object built by the constructor fails (AttributeError) or works on stale state when they run")
+                    except Exception as e:
+                        o.undecided(f"constructor analysis of {ci.name} failed: {type(e).__name__}: {e}", init)
+                # configuration keys: self.<attr> <- params[KEY] as on the pinned tree
+                own_init = ci.methods.get("__init__")
+                wantp = _init_params().get(ci.name)
+                if wantp and own_init is not None and len(own_init.params) >= 2:
+                    from gcmstatic import rules as _rules, tm as _tm
+                    pp = own_init.params[1]
+                    isc = Scope(own_init.node)
+                    for a, spec in wantp.items():
+                        stores = [n for n in astx.walk_fn(own_init.node) if isinstance(n, (ast.Assign, ast.AnnAssign)) and n.value is not None
+                                  and any(astx.self_attr(t_) == a for t_ in (n.targets if isinstance(n, ast.Assign) else [n.target]))]
+                        hits = [n for n in stores if any(isinstance(x, ast.Subscript) and txt(x.value) == pp and txt(x.slice) == spec["key"] for x in ast.walk(isc.resolve(n.value)))]
+                        n_attr += 1
+                        if not stores:
+                            continue     # reported (if it matters) by the definite-assignment rule above
+                        if not hits:
+                            # the value may come through .get(KEY, default) or a helper we cannot see: only accuse when the key is not mentioned at all
+                            mentioned = any(spec["key"] in txt(x) for x in ast.walk(own_init.node) if isinstance(x, (ast.Subscript, ast.Call, ast.Compare)))
+                            if not mentioned:
+                                bad = True
+                                o.violated(own_init, stores[-1], f"`{ci.name}.__init__` no longer stores {pp}[{spec['key']}] into `self.{a}`: the caller's setting is ignored "
+                                                                  f"(the attribute keeps `{txt(stores[-1].value)[:40]}`)")
+                            else:
+                                o.undecided(f"`self.{a}` is not assigned from {pp}[{spec['key']}] in a recognised way", own_init, stores[-1])
+                            continue
+                        if spec.get("guarded"):
+                            got = _rules.path_term(isc.parents, isc, hits[-1])
+                            want_t = _rules.cond_term(f"{spec['key']} in {pp}")
+                            if got != want_t and _tm.single_atom(got) != ("boolconst", True) and not _tm.has_opaque(got):
+                                bad = True
+                                o.violated(own_init, hits[-1], f"`self.{a}` takes {pp}[{spec['key']}] under `{_tm.show(got)[:80]}`, not when the key is present: "
+                                                                "a setting the caller supplies is ignored (or a missing one raises)")
+                # accessors
+                getters = {k: m for k, m in ci.methods.items() if "property" in m.decorators and not k.endswith(".setter")}
+                for name, g in getters.items():
+                    sm = ci.methods.get(name + ".setter")
+                    body = astx.strip_logging([s_ for s_ in g.body if not (isinstance(s_, ast.Expr) and isinstance(s_.value, ast.Constant))])
+                    if sm is None or len(body) != 1 or not isinstance(body[0], ast.Return):
+                        continue
+                    fld = astx.self_attr(body[0].value)
+                    if fld is None or len(sm.params) < 2:
+                        continue
+                    n_acc += 1
+                    val = sm.params[1]
+                    stores = [n for n in astx.walk_fn(sm.node) if isinstance(n, (ast.Assign, ast.AnnAssign)) and
+                              any(astx.self_attr(t_) == fld for t_ in (n.targets if isinstance(n, ast.Assign) else [n.target]))]
+                    if not stores:
+                        bad = True
+                        o.violated(sm, sm.node, f"the setter of `{ci.name}.{name}` does not store into `self.{fld}`, the field its getter returns: assignments through the property are lost")
+                    elif not any(val in astx.names_in(n.value) for n in stores if n.value is not None):
+                        bad = True
+                        o.violated(sm, stores[0], f"the setter of `{ci.name}.{name}` stores `{txt(stores[0].value)}`, not the value it was given (`{val}`)")
+        if not bad:
+            o.holds(None, None, f"{n_cls} constructors / {n_attr} configured attributes that methods read, {n_acc} property getter-setter pairs", construct="constructor and accessor scan")
+
+
 def run(ctx):
     prog = ctx.prog
     files = set(property_files(ctx.prop))
     if not files:
         return
+    mods0 = [m for m in prog.modules.values() if m.relpath in files]
+    if mods0:
+        run_init_and_accessors(ctx, mods0)
     with ctx.obligation(f"{ctx.prop}.S", "no state leaks between calls or objects in the anchor files (shared class state, incomplete memo keys, memoised mutable arguments)") as o:
         n_classes = n_funcs = n_memo = 0
         found = False
